@@ -82,7 +82,7 @@ def tx_csv_part(ctx):
     tc.replace('value.ends_with("!")', 'crate::csvx::ends_with_bang(value)', 'R26')
     tc.replace('&value[..value.len() - 1]', 'crate::csvx::drop_last(value)', 'R26')
     # csvtx_from_csv_values
-    tc.replace('if s.trim().is_empty() {', 'if crate::csvx::str_is_empty(crate::csvx::trim(s.as_str())) {', 'R26')
+    tc.sub(r'\bs\.trim\(\)\.is_empty\(\)', 'crate::csvx::str_is_empty(crate::csvx::trim(s.as_str()))', 'R26', required=True)
     # parse_tx_csv
     tc.sub(r'(?s)let mut reader_box = desc_reader\.reader\(\)\.map_err\(\|e\| e\.to_string\(\)\)\?;\s*'
            r'let reader: &mut dyn Read = reader_box\.borrow_mut\(\);\s*'
